@@ -209,8 +209,7 @@ def _ws_rules():
         rl = rule_list.rule_list(o, get_conf("default").severity_list)
         for r in rl.rules:
             if isinstance(r, W.Rule) and not rule_list.is_rule_deprecated(r):
-                name, num = r.unique_id.rsplit("_", 1)
-                f = "fixtures/%s__rule_%s_test_input.vhd" % (name, num)
+                f = "fixtures/%s__rule_%s_test_input.vhd" % (type(r).__module__.split(".")[-2], r.unique_id.rsplit("_", 1)[1])  # tests/<rule directory>/
                 if os.path.exists(os.path.join(CORPUS, f)):
                     _WS_RULES.append((r.unique_id, f))
     return _WS_RULES
@@ -225,7 +224,7 @@ class K08c(Harness):
     functions = ("vsg.rules.whitespace_between_tokens", "vsg.rule.rule", "vsg.rules.utils", "vsg.vhdlFile.vhdlFile", "vsg.token_map", "vsg.tokens")
     stubs = ()
     assumptions = ("a spelling that allows or demands zero blanks is applied only to a rule whose token pairs in the fixture stay two tokens when written without a blank (`end` `process` would become one word: the configuration, not the fix, fuses them)",)
-    bounds = "every shipped rule derived from whitespace_between_tokens.Rule that has its own fixture (160 of 171) on that fixture x operator in {N, >N, >=N, N+, <N, <=N} x N in 0..3 (quick: the rules whose index = VERIF_SEED mod 8, thorough: all)"
+    bounds = "every shipped rule derived from whitespace_between_tokens.Rule that has its own fixture (all but a few of 171) on that fixture x operator in {N, >N, >=N, N+, <N, <=N} x N in 0..3 (quick: the rules whose index = VERIF_SEED mod 8, thorough: all)"
     outside = "gap widths other than those in the fixtures; N > 3; interaction of two whitespace rules on one gap (L08/L10 under the option sweeps)"
 
     def params(self, tier):
@@ -294,3 +293,92 @@ class K08c(Harness):
         return {"rule": p["rule"], "fixture": p["fixture"], "number_of_spaces": n if op == "%d" else op % n}
 
     signature = staticmethod(_sig)
+
+
+_OPT_RULES = []
+
+
+def _opt_rules():
+    """(unique_id, fixture, option, values) for every shipped rule that has its own corpus fixture and a string option with a domain
+    readable from its source (lfam.option_domain)"""
+    import os
+
+    from vsg import rule_list, vhdlFile as vhdlFile_pkg
+
+    from .lfam import CORPUS, get_conf, option_domain
+
+    if not _OPT_RULES:
+        o = vhdlFile_pkg.vhdlFile([""])
+        rl = rule_list.rule_list(o, get_conf("default").severity_list)
+        for r in rl.rules:
+            if rule_list.is_rule_deprecated(r):
+                continue
+            f = "fixtures/%s__rule_%s_test_input.vhd" % (type(r).__module__.split(".")[-2], r.unique_id.rsplit("_", 1)[1])  # tests/<rule directory>/
+            if not os.path.exists(os.path.join(CORPUS, f)):
+                continue
+            import re as _re
+
+            for k in r.configuration:
+                dom = option_domain(r, k)
+                # values the rule's own documentation names ("<option> set to 'remove'") even when the source never spells them in a comparison
+                if isinstance(getattr(r, k, None), str) and dom:
+                    dom = sorted(set(dom) | set(_re.findall(r"%s set to '([A-Za-z_]+)'" % _re.escape(k), type(r).__doc__ or "")))
+                if len(dom) > 1:
+                    _OPT_RULES.append((r.unique_id, f, k, dom))
+    return _OPT_RULES
+
+
+@register
+class K06c(Harness):
+    name = "K06c"
+    prop = "C06"
+    props = ("C06", "C18")
+    title = "analysing a file with one rule, under every value of each of the rule's own string options, leaves the tokens and the token index exactly as they were and reports the same when repeated (the rule's own fixture, real parser and real rule)"
+    functions = ("vsg.rule.rule", "vsg.rules", "vsg.vhdlFile.vhdlFile", "vsg.vhdlFile.extract", "vsg.token_map")
+    stubs = ()
+    bounds = "every shipped rule with its own fixture and a string option whose domain can be read from the rule's source or its docstring (\"<option> set to '<value>'\") x every value of that domain (engine-forked), one option moved at a time, on that fixture (quick: the (rule, option) pairs whose index = VERIF_SEED mod 6, thorough: all)"
+    outside = "two options moved together (L06 under the option sweeps flipI/flipJ); inputs other than the rule's fixture; option values not spelled in the rule's source"
+    exception_props = ("C19",)
+
+    def params(self, tier):
+        import os
+
+        rules = _opt_rules()
+        if tier == "quick":
+            s = int(os.environ.get("VERIF_SEED", "0") or 0) % 6
+            rules = rules[s::6]
+        return [{"rule": u, "fixture": f, "option": k, "values": list(d)} for u, f, k, d in rules]
+
+    def shard_target(self, p):
+        return 4
+
+    def run(self, eng, p):
+        from vsg import rule_list, vhdlFile as vhdlFile_pkg
+
+        from .lfam import get_conf, map_snapshot, read_fixture, state_equal, tok_state
+
+        val = p["values"][eng.choose("value", len(p["values"]))]
+        conf = get_conf("default")
+        o = vhdlFile_pkg.vhdlFile(list(read_fixture(p["fixture"])))
+        o.set_indent_map(conf.dIndent)
+        rl = rule_list.rule_list(o, conf.severity_list)
+        rl.configure(conf)
+        r = [x for x in rl.rules if x.unique_id == p["rule"]][0]
+        setattr(r, p["option"], val)
+        o.set_token_indent()
+        s0, m0 = tok_state(o), map_snapshot(o)
+        r.analyze(o)
+        v1 = [(v.get_line_number(), v.get_solution()) for v in r.violations]
+        s1, m1 = tok_state(o), map_snapshot(o)
+        r.clear_violations()
+        r.analyze(o)
+        v2 = [(v.get_line_number(), v.get_solution()) for v in r.violations]
+        return [("C06:analysis_leaves_tokens_untouched", state_equal(s0, s1)), ("C06:analysis_leaves_token_index_untouched", m0 == m1), ("C06:repeatable", v1 == v2)]
+
+    def describe(self, values, p):
+        return {"rule": p["rule"], "fixture": p["fixture"], "option": p["option"], "value": p["values"][values.get("value", 0)]}
+
+    def signature(self, values, p, detail):
+        if detail.get("kind") == "exception":
+            return "exception:%s@%s.%s" % (detail.get("type"), p["rule"], p["option"])
+        return "vc:" + ",".join(sorted(detail.get("failed", []))) + "@%s.%s" % (p["rule"], p["option"])
